@@ -42,6 +42,8 @@
 //	                                         worker at gate dispDone|drained|beforeDone|beforeDel (verifhook) after dropping the
 //	                                         control connection, offer nwork NewWorkConn for the run id, release, one late offer;
 //	                                         gate `none` = a free race (offers hammering while the control connection drops)  => done
+//	relogin / gleave / routes / nstorm / pstorm / swc / closerace   wedges, valid nat-hole storms, hostile server frames for frpc, user datagrams
+//	                                         against a closing udp proxy: see eng_crash_wedge.go
 //	stat                                     what the server answered so far (coverage evidence only;
 //	                                         accepted as is by the model)                          => stat:…
 //	watch                                    watchdog: echo through the real frpc's tcp tunnel and a
@@ -259,6 +261,11 @@ func crashExec1(tok []string) string {
 	}
 	line, err := crashReadLine(p, 90*time.Second)
 	if err == nil && line != "" {
+		if strings.HasPrefix(line, "fail:") {
+			// a wedge was observed: the next op gets a fresh child, as after a death
+			crashKill()
+			return line
+		}
 		// the child may die right after answering (a goroutine the op started): give it a moment
 		if d := crashSettle(tok); d > 0 {
 			select {
@@ -284,8 +291,10 @@ func crashSettle(tok []string) time.Duration {
 		}
 	case "storm", "cstorm", "race6", "stun", "negpool":
 		return 50 * time.Millisecond
-	case "wconn", "wstorm", "tear":
+	case "wconn", "wstorm", "tear", "nstorm", "closerace", "pstorm":
 		return 80 * time.Millisecond
+	case "swc":
+		return 40 * time.Millisecond
 	}
 	return 0
 }
@@ -317,6 +326,7 @@ type crashConn struct {
 	wmu         sync.Mutex              // writers of the control connection (ops and the ReqWorkConn responder)
 	reqWork     chan struct{}           // one token per ReqWorkConn read from the server
 	proxyResp   chan *msg.NewProxyResp  // registration answers
+	pong        chan struct{}           // one token per Pong
 }
 
 type crashWorld struct {
@@ -334,8 +344,9 @@ type crashWorld struct {
 	cli       *client.Service
 	udpEcho   int
 	gmu       sync.Mutex
-	gates     map[string]*crashGate // Login.Hostname -> gate the session's teardown parks at
+	gates     map[string]*crashGate // armed key (Login.Hostname, proxy / group name) -> gate
 	tearSeq   int
+	swc       map[string]*crashSwcFix // proxyProtocolVersion -> scripted server + real frpc (op swc)
 }
 
 var crashW *crashWorld
@@ -806,6 +817,12 @@ func crashDrainMsgs(rw io.Reader, pc *crashConn) {
 				} else {
 					crashCount("pongErr")
 				}
+				if pc != nil {
+					select {
+					case pc.pong <- struct{}{}:
+					default:
+					}
+				}
 			case *msg.NatHoleResp:
 				crashCount("natResp")
 			case *msg.ReqWorkConn:
@@ -872,7 +889,7 @@ func (w *crashWorld) loginHost(cid string, pool int, good bool, variant int64, h
 		return "cryptoerr"
 	}
 	pc := &crashConn{c: c, rw: rw, established: true, runID: resp.RunID, reqWork: make(chan struct{}, 64),
-		proxyResp: make(chan *msg.NewProxyResp, 64)}
+		proxyResp: make(chan *msg.NewProxyResp, 64), pong: make(chan struct{}, 8)}
 	crashDrainMsgs(rw, pc)
 	crashCount("loginOK")
 	w.put(cid, pc)
@@ -1140,12 +1157,33 @@ func crashChildExec(w *crashWorld, tok []string) string {
 		return "done"
 	case "tear":
 		return w.tear(tok[1], tok[2], atoi(tok[3]), atoi(tok[4]))
+	case "relogin":
+		return w.relogin(tok[1], tok[2], atoi(tok[3]), tok[4], atoi(tok[5]))
+	case "gleave":
+		v, _ := strconv.ParseInt(tok[3], 10, 64)
+		return w.gleave(tok[1], tok[2], v)
+	case "nstorm":
+		seed, _ := strconv.ParseInt(tok[1], 10, 64)
+		w.nstorm(seed, atoi(tok[2]), atoi(tok[3]))
+		return "done"
+	case "routes":
+		v, _ := strconv.ParseInt(tok[3], 10, 64)
+		return w.routes(tok[1], tok[2], v)
+	case "closerace":
+		return w.closerace(tok[1], tok[2], atoi(tok[3]), atoi(tok[4]))
+	case "pstorm":
+		seed, _ := strconv.ParseInt(tok[1], 10, 64)
+		w.pstorm(seed, atoi(tok[2]), atoi(tok[3]))
+		return "done"
+	case "swc":
+		return w.swcOp(tok[1], unhx(tok[2]), atoi(tok[3]), unhx(tok[4]), atoi(tok[5]))
 	case "stat":
 		byRun, names := w.svr.VerifSessDump()
 		crashCntMu.Lock()
 		defer crashCntMu.Unlock()
 		ks := []string{"loginOK", "proxyOK", "proxyRefused", "pong", "pongErr", "natResp", "reqWork", "workOffered", "workStarted",
-			"workFrames", "udpMarker", "visitorOK", "visitorRefused", "tearParked", "tearOfferClosed", "tearOfferPooled"}
+			"workFrames", "udpMarker", "visitorOK", "visitorRefused", "tearParked", "tearOfferClosed", "tearOfferPooled",
+			"reloginParked", "gleaveParked", "wdGroupOK", "wdGroupRefused", "natSent", "swc", "closeraceSent", "pstormSent", "routesOK", "routesRefused"}
 		out := []string{fmt.Sprintf("sessions=%d", len(byRun)), fmt.Sprintf("proxies=%d", len(names))}
 		for _, k := range ks {
 			out = append(out, fmt.Sprintf("%s=%d", k, crashCnt[k]))
@@ -1168,7 +1206,10 @@ func crashChildExec(w *crashWorld, tok []string) string {
 		if r := w.login("watch", 1, true, 0); r != "ok" {
 			return "fail:login-" + r
 		}
-		w.drop("watch")
+		defer w.drop("watch")
+		if why := w.watchGroups(w.get("watch")); why != "" {
+			return "fail:group-" + why
+		}
 		return "ok"
 	}
 	return "badop"
@@ -1233,6 +1274,10 @@ func crashCStorm(w *crashWorld, seed int64, nmsg int) string {
 							}
 							switch x := cm.(type) {
 							case *msg.NewProxy:
+								if strings.HasPrefix(x.ProxyName, "c16clipp") { // these must reach `running` to be handed work connections
+									_ = wr(&msg.NewProxyResp{ProxyName: x.ProxyName, RemoteAddr: ":1"})
+									continue
+								}
 								_ = wr(&msg.NewProxyResp{ProxyName: []string{x.ProxyName, crashStr(r)}[r.Intn(2)],
 									RemoteAddr: crashAddr(r), Error: []string{"", "", crashStr(r)}[r.Intn(3)]})
 							case *msg.Ping:
@@ -1263,7 +1308,20 @@ func crashCStorm(w *crashWorld, seed int64, nmsg int) string {
 					}
 					time.Sleep(time.Duration(50+r.Intn(100)) * time.Millisecond)
 				case *msg.NewWorkConn:
-					switch r.Intn(6) {
+					switch r.Intn(8) {
+					case 6, 7:
+						// proxy protocol: the tcp proxies with transport.proxyProtocolVersion v1 / v2 (and the plain one) get the
+						// addresses of the "user" from us — both families, ports 0 / 65535, and (crashPPAddrsInStorms) what does
+						// not resolve
+						pname := []string{"c16clipp1", "c16clipp2", "c16cli"}[r.Intn(3)]
+						good := !crashPPAddrsInStorms && pname != "c16cli" // the proxy without header takes anything already now
+						sw := &msg.StartWorkConn{ProxyName: pname,
+							SrcAddr: crashHost(r, good), SrcPort: uint16([]int{1, 0, 65535, 40000}[r.Intn(4)]),
+							DstAddr: []string{"", crashHost(r, good), crashHost(r, good)}[r.Intn(3)], DstPort: uint16([]int{80, 0, 65535}[r.Intn(3)])}
+						_ = msg.WriteMsg(c, sw)
+						_, _ = c.Write([]byte("c16-pp-payload"))
+						_ = c.SetReadDeadline(time.Now().Add(100 * time.Millisecond))
+						_, _ = io.Copy(io.Discard, c)
 					case 0:
 						_ = msg.WriteMsg(c, w.makeMsg("StartWorkConn", r))
 					case 1:
@@ -1313,7 +1371,17 @@ func crashCStorm(w *crashWorld, seed int64, nmsg int) string {
 	udp.LocalIP, udp.LocalPort = "127.0.0.1", 9
 	udp.RemotePort = 2
 	udp.Complete("")
-	cli, err := client.NewService(client.ServiceOptions{Common: ccfg, ProxyCfgs: []v1.ProxyConfigurer{tcp, udp}})
+	pcfgs := []v1.ProxyConfigurer{tcp, udp}
+	for i, ver := range []string{"v1", "v2"} {
+		pp := &v1.TCPProxyConfig{}
+		pp.Name, pp.Type = "c16clipp"+strconv.Itoa(i+1), "tcp"
+		pp.LocalIP, pp.LocalPort = "127.0.0.1", w.echoPort
+		pp.RemotePort = 3 + i
+		pp.Transport.ProxyProtocolVersion = ver
+		pp.Complete("")
+		pcfgs = append(pcfgs, pp)
+	}
+	cli, err := client.NewService(client.ServiceOptions{Common: ccfg, ProxyCfgs: pcfgs})
 	if err != nil {
 		return "clienterr"
 	}
@@ -1366,6 +1434,18 @@ func crashChildMain() {
 	os.Exit(0)
 }
 
+// StartWorkConn addresses that do not resolve kill the unrepaired frpc when the proxy has a proxyProtocolVersion (KNOWN
+// finding C16-startworkconn-addr-nil; witnesses: the `swc` ops).  Until hooks/C16-fix-startworkconn-addr.patch is in /repo
+// the scripted server of `cstorm` sends resolvable addresses only, otherwise every cstorm would end at the same place.
+// Set to true together with Crash.startWorkAddrIsFixed.
+const crashPPAddrsInStorms = false
+
+// A user datagram read just before a udp proxy closes kills the unrepaired frps (KNOWN finding C16-udp-forward-send-closed;
+// witness: harness/corpus/crash/udp-forward-send.ops).  Until hooks/C16-fix-udp-forward-send.patch is in /repo the generator
+// does not flood closing UDP proxies (`closerace … udp`), otherwise every run would end there.  Set to true together with
+// Crash.udpForwardSendIsFixed.
+const crashUDPRaceInStorms = false
+
 // Negative pool counts kill the unrepaired frps (KNOWN finding C16-poolcount-negative; witnesses `login … -11`,
 // `negpool … -1`).  Until hooks/C16-fix-poolcount.patch is in /repo the RANDOM part of the generator and the
 // storms stay at PoolCount >= 0, otherwise every run would die at a random place of the same cause.  Set to true
@@ -1400,6 +1480,43 @@ func crashGen(rng *rand.Rand, n int, emit func(string)) {
 	emit("race6 60000")                          // §7 #6
 	emit("stun 1 3")                             // a well-behaved STUN peer
 	emit("stun 64 150")                          // the flood
+	emit("watch")
+	// 1a. frpc against a hostile server: StartWorkConn addresses × proxyProtocolVersion (C16-startworkconn-addr-nil)
+	if crashPPAddrsInStorms { // until then the two witnesses live in harness/corpus/crash/startworkconn-addr.ops (each ends a child)
+		emit(fmt.Sprintf("swc v1 %s 1 %s 0", hx("1.2.3.4.5"), hx("")))
+		emit(fmt.Sprintf("swc v2 %s 40000 %s 80", hx("1.2.3.4"), hx("999.1.1.1")))
+	}
+	for _, ver := range []string{"none", "v1", "v2"} {
+		for i := 0; i < 7; i++ {
+			good := i < 2 || (ver != "none" && !crashPPAddrsInStorms) // until the fix: what does not resolve only on the proxy without header
+			src, dst := crashHost(rng, good), []string{"", crashHost(rng, good), crashHost(rng, good)}[rng.Intn(3)]
+			if i == 2 {
+				src = "" // no source address: no header at all
+			}
+			emit(fmt.Sprintf("swc %s %s %d %s %d", ver, hx(src), []int{1, 1, 0, 65535, 40000}[rng.Intn(5)], hx(dst), []int{80, 0, 65535}[rng.Intn(3)]))
+		}
+	}
+	emit("watch")
+	// 1w. wedges: re-logins with a live / closing session's run id; a join racing the last leave of a group; valid nat-hole traffic
+	for i, g := range crashReloginGates {
+		k := 2 + (i+rng.Intn(2))%3
+		emit(fmt.Sprintf("relogin rg %s %d %s %d", g, k, crashPerm(rng, k), rng.Intn(4)))
+	}
+	emit(fmt.Sprintf("relogin rg live 1 %s 0", crashPerm(rng, 1)))
+	for _, kind := range crashGroupKinds {
+		emit(fmt.Sprintf("gleave gl %s %d", kind, rng.Intn(1<<20)&^3)) // CloseProxy, right key
+		emit(fmt.Sprintf("gleave gl %s %d", kind, rng.Intn(1<<20)|1))  // connection drop (odd), right or wrong key
+	}
+	for v := 0; v < 4; v++ {
+		emit(fmt.Sprintf("routes rt http %d", rng.Intn(1<<20)&^3|v))
+		emit(fmt.Sprintf("routes rt tcpmux %d", rng.Intn(1<<20)&^3|v))
+	}
+	emit(fmt.Sprintf("nstorm %d 8 400", rng.Intn(1<<20)))
+	emit(fmt.Sprintf("pstorm %d 8 300", rng.Intn(1<<20)))
+	for _, kind := range crashRaceKinds() {
+		emit(fmt.Sprintf("closerace cr %s %d %d", kind, 6+rng.Intn(6), 2+rng.Intn(4)))
+	}
+	emit("stat")
 	emit("watch")
 	// 1b. every class of work / visitor connection and every teardown gate once, early (short replays)
 	for _, pt := range crashWorkTypes {
@@ -1443,6 +1560,21 @@ func crashGen(rng *rand.Rand, n int, emit func(string)) {
 			emit(fmt.Sprintf("wconn %s %s %d", pick(rng, cids), pt, rng.Intn(1<<30)))
 		case x < 21:
 			emit(fmt.Sprintf("tear %s %s %d %d", pick(rng, []string{"t1", "t2"}), pick(rng, crashTearGates), 1+rng.Intn(6), rng.Intn(12)))
+		case x < 24:
+			k := 1 + rng.Intn(4)
+			emit(fmt.Sprintf("relogin %s %s %d %s %d", pick(rng, []string{"r1", "r2"}), pick(rng, crashReloginGates), k, crashPerm(rng, k), rng.Intn(6)))
+		case x < 25:
+			emit(fmt.Sprintf("routes %s %s %d", pick(rng, []string{"q1", "q2"}), pick(rng, []string{"http", "tcpmux"}), rng.Intn(1<<20)))
+		case x < 27:
+			emit(fmt.Sprintf("gleave %s %s %d", pick(rng, []string{"g1", "g2"}), pick(rng, crashGroupKinds), rng.Intn(1<<20)))
+		case x < 29:
+			good := rng.Intn(3) == 0
+			ver := pick(rng, []string{"none", "v1", "v2", "v1", "v2"})
+			if ver != "none" && !crashPPAddrsInStorms {
+				good = true
+			}
+			emit(fmt.Sprintf("swc %s %s %d %s %d", ver, hx(crashHost(rng, good)), []int{1, 0, 65535, 40000}[rng.Intn(4)],
+				hx([]string{"", crashHost(rng, good)}[rng.Intn(2)]), []int{80, 0, 65535}[rng.Intn(3)]))
 		case x < 70:
 			t := crashTypes[rng.Intn(len(crashTypes))]
 			if rng.Intn(2) == 0 {
@@ -1468,6 +1600,11 @@ func crashGen(rng *rand.Rand, n int, emit func(string)) {
 			if emitted%(3*stormEvery) == 0 {
 				emit(fmt.Sprintf("wstorm %d %d %d", rng.Intn(1<<20), 4+rng.Intn(8), 4+rng.Intn(12)))
 			}
+			if emitted%(4*stormEvery) == 0 {
+				emit(fmt.Sprintf("nstorm %d %d %d", rng.Intn(1<<20), 4+rng.Intn(8), 150+rng.Intn(300)))
+				emit(fmt.Sprintf("pstorm %d %d %d", rng.Intn(1<<20), 4+rng.Intn(8), 100+rng.Intn(300)))
+				emit(fmt.Sprintf("closerace %s %s %d %d", pick(rng, []string{"c1", "c2"}), pick(rng, crashRaceKinds()), 3+rng.Intn(8), 1+rng.Intn(6)))
+			}
 			emit("stat")
 			emit("watch")
 			emitted += 20
@@ -1485,6 +1622,26 @@ func crashGen(rng *rand.Rand, n int, emit func(string)) {
 }
 
 var crashTearGates = []string{"dispDone", "drained", "beforeDone", "beforeDel", "none"}
+var crashReloginGates = []string{"dispDone", "drained", "beforeDone", "beforeDel", "live"}
+var crashGroupKinds = []string{"tcp", "tcpmux", "http"}
+
+func crashRaceKinds() []string {
+	ks := []string{"tcp", "tcpgroup", "tcpmuxgroup", "httpgroup"}
+	if crashUDPRaceInStorms {
+		ks = append(ks, "udp")
+	}
+	return ks
+}
+
+// a release order for session A (0) and the k parked logins (1…k), as digits
+func crashPerm(rng *rand.Rand, k int) string {
+	p := rng.Perm(k + 1)
+	var b strings.Builder
+	for _, x := range p {
+		b.WriteByte(byte('0' + x))
+	}
+	return b.String()
+}
 
 func init() {
 	if os.Getenv("VERIF_CRASH_CHILD") != "" && len(os.Args) >= 3 && os.Args[1] == "crash" && os.Args[2] == "child" {
